@@ -13,6 +13,12 @@ Proof.
 Qed.
 Theorem C15_theory_context_total : forall n c, tel_ctx_reject_gen n c <> None /\ del_ctx_reject_gen n c <> None.
 Proof. intros n c. destruct (tel_ctx_spec n c) as [-> ->]. split; discriminate. Qed.
+Require Import HeadShift HeadDefs HeadRulesProofs.
+(* the head translation step is total: for every head formula (of the model's formula language), every distance from the state it was introduced at and
+   every atom base, every clause of the unfolding becomes a rule - the step has no failing branch (the assertion-free reading of ClauseToRule) *)
+Theorem C15_head_translation_step_total : forall (A : Type) (inbase : A -> bool) (F : hf A) (d : nat), exists rs, rules_at A inbase F d = Some rs.
+Proof. exact rules_at_total. Qed.
+Print Assumptions C15_head_translation_step_total.
 Print Assumptions C15_loop_never_raises.
 Print Assumptions C15_atom_decision_total.
 Print Assumptions C15_theory_context_total.
